@@ -259,3 +259,29 @@ namespace ModVerif.GoRt
 /-- an error value that wraps an inner error (`&T{…, Err: err}`, `fmt.Errorf("…%v", err)`): outer name, `|`, inner text -/
 def wrapErr (name : String) (inner : Option String) : Option String := some (name ++ "|" ++ inner.getD "")
 end ModVerif.GoRt
+
+namespace ModVerif.GoRt
+open ModVerif
+
+/-- strconv.ParseInt(s, 10, 64): same syntax and range as `atoi` on a 64-bit platform -/
+def parseInt (s : Bytes) (base bits : Int) : Int × Option String :=
+  if base = 10 ∧ bits = 64 then atoi s else (0, some "strconv.ParseInt: unsupported base or size")
+
+/-- strconv.FormatInt(n, 10) -/
+def formatInt (n base : Int) : Bytes := if base = 10 then itoa n else []
+
+/-- strings.SplitN(s, sep, n) for n > 0 and a non-empty separator: at most n pieces, the last one unsplit -/
+def splitNAux (sep : Bytes) : Nat → Nat → Bytes → Bytes → List Bytes
+  | 0, _, rest, cur => [cur.reverse ++ rest]
+  | _ + 1, 0, rest, cur => [cur.reverse ++ rest]
+  | _ + 1, _ + 1, [], cur => [cur.reverse]
+  | f + 1, k + 1, x :: xs, cur =>
+    if k = 0 then [cur.reverse ++ (x :: xs)]
+    else if isPrefixOfB sep (x :: xs) then cur.reverse :: splitNAux sep f k ((x :: xs).drop sep.length) []
+    else splitNAux sep f (k + 1) xs (x :: cur)
+def splitN (s sep : Bytes) (n : Int) : List Bytes :=
+  if n ≤ 0 then (if n = 0 then [] else split s sep) else splitNAux sep (s.length + 1) n.toNat s []
+
+def bytesEq (a b : Bytes) : Bool := decide (a = b)
+
+end ModVerif.GoRt
